@@ -89,6 +89,10 @@ func c05Members(member bool) []int {
 	return []int{3, 1, 2}
 }
 
+// c05LargeMembers is a second keyper set announced under the same index (the access node overwrites its entry
+// when the announcement is delivered again): the first three positions agree with c05Members(true).
+var c05LargeMembers = []int{0, 1, 2, 4, 5}
+
 func c05IDs(fl string) [][]byte {
 	n := 32
 	if fl == "gnosis" || fl == "accessnode" {
@@ -162,7 +166,7 @@ func c05KeysMsg(fl string, fix *eonFixture, ids [][]byte, signers []int) *p2pmsg
 	var sigs [][]byte
 	for _, s := range signers {
 		idx = append(idx, uint64(s))
-		key := uni.Keys[c05Members(true)[s]]
+		key := uni.Keys[c05LargeMembers[s]]
 		if fl == "gnosis" || fl == "accessnode" {
 			d, _ := gnosisssztypes.NewSlotDecryptionSignatureData(simInstanceID, c05CfgIdx, c05Slot, c05TxPointer, preimages(ids))
 			sig, _ := d.ComputeSignature(key)
@@ -297,9 +301,13 @@ func buildC05Scenarios() []*c05Scenario {
 		}
 	}
 	// access node: no database
-	for _, state := range []string{"empty", "synced", "set-only", "key-only"} {
+	for _, state := range []string{"empty", "synced", "set-only", "key-only", "synced-larger-set"} {
 		sc := &c05Scenario{Name: "accessnode/" + state, Fl: "accessnode", State: state, Topics: []string{kprtopics.DecryptionKeys}, Bases: map[string][]p2pmsg.Message{}}
 		sc.Bases[kprtopics.DecryptionKeys] = []p2pmsg.Message{c05KeysMsg("accessnode", fix, c05IDs("accessnode"), []int{1, 2})}
+		if state == "synced-larger-set" {
+			// signers that exist only in the larger set
+			sc.Bases[kprtopics.DecryptionKeys] = []p2pmsg.Message{c05KeysMsg("accessnode", fix, c05IDs("accessnode"), []int{1, 4}), c05KeysMsg("accessnode", fix, c05IDs("accessnode")[:1], []int{3, 4}), c05KeysMsg("accessnode", fix, c05IDs("accessnode"), []int{1, 2})}
+		}
 		for _, deg := range []uint64{0, 1} {
 			dm := c05KeysMsg("accessnode", fix, c05IDs("accessnode")[:1], nil)
 			dm.Eon = deg
@@ -325,10 +333,13 @@ func (sc *c05Scenario) instantiate() *c05Target {
 				an.Storage.AddKeyperSet(c05CfgIdx, &obskeyper.KeyperSet{KeyperConfigIndex: c05CfgIdx, Keypers: addrStrings(c05Members(true)), Threshold: c05T})
 			}
 		}
-		if sc.State == "synced" {
+		if sc.State == "synced" || sc.State == "synced-larger-set" {
 			fix := getEonFixture(c05N, c05T)
 			an.Storage.AddEonKey(c05CfgIdx, fix.Real.EonPublicKey())
 			an.Storage.AddKeyperSet(c05CfgIdx, &obskeyper.KeyperSet{KeyperConfigIndex: c05CfgIdx, Keypers: addrStrings(c05Members(true)), Threshold: c05T})
+			if sc.State == "synced-larger-set" {
+				an.Storage.AddKeyperSet(c05CfgIdx, &obskeyper.KeyperSet{KeyperConfigIndex: c05CfgIdx, Keypers: addrStrings(c05LargeMembers), Threshold: c05T})
+			}
 			// degenerate keyper sets (threshold 0 with members; no members), with an eon key each
 			an.Storage.AddEonKey(0, fix.Real.EonPublicKey())
 			an.Storage.AddKeyperSet(0, &obskeyper.KeyperSet{KeyperConfigIndex: 0, Keypers: addrStrings(c05Members(true)), Threshold: 0})
